@@ -234,6 +234,34 @@ class MixEval:
             raise pa.Unknown(f'{f.name}: subscript `{norm(e)[:40]}`')
         if isinstance(e, ast.Call):
             return self.call(f, e, env)
+        if isinstance(e, (ast.ListComp, ast.GeneratorExp)) and len(e.generators) == 1 and not e.generators[0].is_async:
+            g = e.generators[0]
+            src = self.ev(f, g.iter, env)
+            if not isinstance(src, (range, list, tuple)) or len(src) > 64:
+                raise pa.Unknown(f'{f.name}: comprehension source `{norm(g.iter)[:30]}`')
+            out = []
+            for x in src:
+                sc = dict(env)
+                if isinstance(g.target, ast.Name):
+                    sc[g.target.id] = x
+                elif isinstance(g.target, ast.Tuple) and isinstance(x, tuple) and len(x) == len(g.target.elts):
+                    for t_, x_ in zip(g.target.elts, x):
+                        sc[t_.id] = x_
+                else:
+                    raise pa.Unknown(f'{f.name}: comprehension target')
+                conds = [self.ev(f, c, sc) for c in g.ifs]
+                if any(not isinstance(c, (bool, int)) for c in conds):
+                    raise pa.Unknown(f'{f.name}: comprehension condition')
+                if all(conds):
+                    out.append(self.ev(f, e.elt, sc))
+            return out
+        if isinstance(e, ast.Compare) and len(e.ops) == 1:
+            l, r = self.ev(f, e.left, env), self.ev(f, e.comparators[0], env)
+            if isinstance(l, int) and isinstance(r, int):
+                import operator
+                ops = {ast.Eq: operator.eq, ast.NotEq: operator.ne, ast.Lt: operator.lt, ast.LtE: operator.le, ast.Gt: operator.gt, ast.GtE: operator.ge}
+                if type(e.ops[0]) in ops:
+                    return ops[type(e.ops[0])](l, r)
         raise pa.Unknown(f'{f.name}: expression `{norm(e)[:40]}`')
 
     def call(self, f, e, env):
